@@ -22,7 +22,7 @@
   Proved since: `edit_refines_multi_*` — ANY finite set of live iterators (state = records + one
   iterator per slot, spec = names + one cursor per slot, relation `RefM`): create / destroy / reset /
   next on one iterator leave the others alone; shift / pop (repaired D19, D20) / push (no iterator at
-  the end) move EVERY cursor as the plain list does.  Method (Hostlist/EditMulti.lean): every structural
+  the end) move EVERY cursor as the plain list does; uniq resets every iterator.  Method (Hostlist/EditMulti.lean): every structural
   operation re-bases the iterators by ONE rule applied to each (`UnifM`, proved for
   `hostlist_shift_iterators`, `hostlist_delete_range`, `hostlist_shift`, `hostlist_pop`,
   `hostlist_push_range`), so the one-iterator theorem lifts (`RefM.lift`).
@@ -33,15 +33,14 @@
   delete by position / name                  deleteNth_hosts; C02.delete_host_exact
   positions returned by lookup               find_sound, find_eq_idxOf (small names); find_miss_big_suffix (F16-BIGSUFFIX)
   counts                                     deleteNth_hosts (.count), uniq_count, Good invariants
-  hosts seen by EVERY live iterator          edit_refines_multi_new/_free/_reset/_next/_shift/_pop/_push;
+  hosts seen by EVERY live iterator          edit_refines_multi_new/_free/_reset/_next/_shift/_pop/_push/_uniq;
                                              one iterator: edit_refines_* (also remove, uniq, push text)
   duplicates removed, none lost              uniq_names, edit_refines_uniq (IF duplicate-free); uniq_keeps_duplicate (F16-UNIQ)
 
   Not proved (correspondence + witnesses only): `hostlist_remove` / `hostlist_delete_nth` /
   `hostlist_delete_host` as seen by OTHER live iterators (`hostlist_host_deleted`, the repair of
   F16-MULTI / F16-DELETE-UNDER-ITERATOR: `multi_witness`, `delete_under_iterator_witness` and the
-  three-way correspondence with up to 3 live iterators); uniq with several iterators (they are all reset:
-  one iterator is `edit_refines_uniq`); `hostlist_sort` (not in the editable model: judged against the
+  three-way correspondence with up to 3 live iterators); `hostlist_sort` (not in the editable model: judged against the
   plain-list specification only); a push while an iterator stands at the end (true once F16-ENDPUSH is
   repaired: `endpush_witness`; `AtPos` / `itNext_none_pos` of Hostlist/LemmasIterEdit.lean are the
   invariant it needs); duplicate-freedom after `uniq` (false: F16-UNIQ).
@@ -53,6 +52,7 @@ import PdshVerif.Hostlist.EditRefine
 import PdshVerif.Hostlist.EditRefineText
 import PdshVerif.Hostlist.EditRefineUniq
 import PdshVerif.Hostlist.EditMultiKeyed
+import PdshVerif.Hostlist.EditMultiUniq
 
 namespace PdshVerif.C16
 open PdshVerif.Hostlist PdshVerif.Gen
@@ -281,6 +281,18 @@ theorem edit_refines_multi_push (cfg : Cfg) (hfs : cfg.fixIterSuffix = true) (e 
     (fr : Nat → Bool) (h : RefM cfg e p fr) (r : HRange) (hr : r.Good) (hnotend : ∀ b ∈ p.cur, b.2 < p.names.length) :
     RefM cfg (pushRangeE e r) { p with names := p.names ++ r.hosts } (fun _ => false) :=
   push_refinesM cfg hfs e p fr h r hr hnotend
+
+/-- UNIQ: whatever list `hostlist_uniq` leaves, IF it is free of duplicates (F16-UNIQ is the case where it
+    is not) it is admissible for the plain list and EVERY iterator starts over (hypotheses as in
+    `edit_refines_uniq`) -/
+theorem edit_refines_multi_uniq (cfg : Cfg) (hfs : cfg.fixIterSuffix = true) (e : EL) (p : EditSpec.PL) (fr : Nat → Bool)
+    (h : RefM cfg e p fr)
+    (hb : cfg.fixCmpTrunc = true ∨ ∀ r ∈ e.ranges, r.lo < 2147483648) (hsm : e.hosts.length < 2147483648)
+    (hreset : cfg.fixUniqReset = true ∨ 2 ≤ e.rs.length)
+    (e' : EL) (hu : uniqE cfg e = some e') (hnd : e'.hosts.Nodup) :
+    EditSpec.uniq p e'.hosts = some ⟨e'.hosts, p.cur.map fun (k, _) => (k, 0)⟩ ∧
+      RefM cfg e' ⟨e'.hosts, p.cur.map fun (k, _) => (k, 0)⟩ (fun _ => false) :=
+  uniq_refinesM cfg hfs e p fr h hb hsm hreset e' hu hnd
 
 /-- the empty list without iterators is in the relation (so is everything the operations above reach) -/
 theorem edit_refines_multi_init (cfg : Cfg) : RefM cfg EL.new EditSpec.PL.new (fun _ => false) := by
